@@ -52,11 +52,11 @@ def items_list(x):
 
 
 def flat_facts(kind, L, items):
+    """what C02 / C12 need of flatten_items: same meaning, same variables.  (That the result has no nested same-kind member and no
+    duplicates is deliberately not part of the contract: of() removes duplicates itself, no listed property depends on it here.)"""
     src = items_list(items)
     return [("len", L.n >= 0),
             ("fold", fold(kind, L) == fold(kind, src)),
-            ("no-nested", fa(L, lambda t: z3.Not(is_cls(t, kind)))),
-            ("distinct", distinct(L)),
             ("uses", ex_(L, uses) == ex_(src, uses)),
             ("empty-iff", (L.n == 0) == fa(src, lambda t: z3.And(is_cls(t, kind), nkids(t) == 0)) if False else z3.BoolVal(True))]
 
@@ -93,7 +93,6 @@ class FlattenItems(Contract):
         F = st.loc("flattened")
         src = items_list(st.loc("items"))
         return [("len", F.n >= 0), ("fold", fold(kind, F) == fold(kind, src, hi=st.k)),
-                ("no-nested", fa(F, lambda t: z3.Not(is_cls(t, kind)))), ("distinct", distinct(F)),
                 ("uses", ex_(F, uses) == ex_(src, uses, hi=st.k))]
 
     @staticmethod
@@ -106,7 +105,6 @@ class FlattenItems(Contract):
         comb = z3.And if kind == "MultiMarker" else z3.Or
         return [("len", F.n >= 0), ("outer-index", z3.And(0 <= p, p < src.n)),
                 ("fold", fold(kind, F) == comb(fold(kind, src, hi=p), fold(kind, S, hi=st.k))),
-                ("no-nested", fa(F, lambda t: z3.Not(is_cls(t, kind)))), ("distinct", distinct(F)),
                 ("uses", ex_(F, uses) == z3.Or(ex_(src, uses, hi=p), ex_(S, uses, hi=st.k)))]
 
 
